@@ -25,6 +25,7 @@ FLATTENERS = ("complex::ComplexProps as model::TryFromNode<'n>>::try_from_node",
 BAD_VEC_OPS = {"insert", "sort", "sort_by", "sort_by_key", "sort_unstable", "reverse", "dedup", "dedup_by", "dedup_by_key",
                "retain", "truncate", "swap", "remove", "pop", "clear", "drain", "swap_remove", "split_off", "rotate_left",
                "rotate_right"}
+REORDERING = ("partition", "partition_in_place", "rev", "sorted", "sorted_by", "sorted_by_key", "group_by", "chunk_by", "unzip", "max_by_key", "min_by_key")
 BAD_ITER_ADAPTERS = ("take", "skip", "step_by", "rev", "take_while", "skip_while", "nth", "last", "peekable", "fuse")
 
 
@@ -175,7 +176,8 @@ def run(ck, F):
                   "(element: own/parent minOccurs=0 or parent is a choice) / (attribute: use != required); else T; attribute=true iff attribute")
     ck.rule("R3", "complete traversal: child loops of the flattening functions exit only on exhaustion or error; fields are only pushed/extended")
     ck.rule("R4", "dispatch sets: complexType ⊇ {sequence, complexContent, attribute}; extension ⊇ {sequence, attribute}; sequence/choice ⊇ {choice, sequence}")
-    ck.rule("R5", "one node per top-level child, one emission per node (the two emission loops partition the node list)")
+    ck.rule("R5", "one node per top-level child, one emission per node (the two emission loops partition the node list); merging an imported "
+                  "document appends each of its component collections as a whole")
     ck.rule("R6", "naming: struct name = pascal(xml name); field name = rename_keywords(snake(xml name)); both emitted `pub`")
     X = T.extractor(F)
     rule_builtins(ck, F, X)
@@ -183,6 +185,7 @@ def run(ck, F):
     rule_traversal(ck, F, X)
     rule_dispatch(ck, F, X)
     rule_emission(ck, F, X)
+    rule_merge_keeps_components(ck, F)
     rule_naming(ck, F, X)
 
 
@@ -400,6 +403,10 @@ def rule_traversal(ck, F, X):
                                  f"{short}: `{kind}` inside the loop over child elements: the remaining children (declared members) are dropped", fn=short)
                 if not exits and not bad_ad:
                     ck.ok("R3", f"{short}:loop#{n_loops}", Hh.sp(x), f"{short}: loop over `{src[:60]}` exits only on exhaustion or `?`", fn=short)
+            if x.get("k") == "MethodCall" and x["name"] in REORDERING and "children" in Hh.describe(x["recv"]):
+                ck.violation("R3", f"{short}:reorder:{x['name']}", Hh.sp(x),
+                             f"{short}: the child elements are regrouped with `{x['name']}` before they are turned into members: members no longer "
+                             f"follow the declaration order of the schema", fn=short)
             if x.get("k") == "MethodCall" and x["name"] in BAD_VEC_OPS:
                 rty = (Hh.strip(x["recv"]).get("adj_ty") or Hh.strip(x["recv"]).get("ty") or "")
                 if x["name"] == "clear" and _clear_then_refill(nb, x):
@@ -417,6 +424,8 @@ def _iter_source(nb, for_node):
         for x in Hh.walk(nb["value"]):
             if x.get("k") == "Let" and x["pat"].get("k") == "Binding" and x["pat"]["id"] == it["id"] and x.get("init"):
                 return Hh.describe(x["init"])
+            if x.get("k") == "Let" and x.get("init") and x["pat"].get("k") != "Binding" and any(i_ == it["id"] for i_, _n in Hh.pat_bindings(x["pat"])):
+                return Hh.describe(x["init"])     # `let (a, b) = children().partition(..)`
     return d
 
 
@@ -654,6 +663,41 @@ def rule_emission(ck, F, X):
             ck.ok("R5", "read_xsd-push-once", Hh.sp(pushes[0]), f"{short}: one push per successfully converted child, loop runs to exhaustion")
         else:
             ck.violation("R5", "read_xsd-push-once", b["span"], f"{short}: {len(pushes)} pushes in {len(loops)} loops, early exits: {[e[0] for e in exits]}")
+
+
+def rule_merge_keeps_components(ck, F):
+    """When an imported document is merged into the importing one, every component it holds is kept: each component collection of
+    the incoming document (`nodes`, the WSDL collections) is appended as a whole to the same collection of the receiver. A merge
+    that filters, de-duplicates by a partial key or takes only some elements drops declared types."""
+    from engine.rulekit import mir as M
+    st = next((x for x in F.lib.items["structs"] if x["path"] == "model::doc::RustDocument"), None)
+    merges = [f for f in A._fn_items(F) if [A._norm_ty(x) for x in f["inputs"]] == ["&mutmodel::doc::RustDocument", "model::doc::RustDocument"]]
+    if st is None or len(merges) != 1:
+        ck.undecided("R5", "merge", "-", f"the merge function `fn(&mut RustDocument, RustDocument)` could not be attributed uniquely ({[m['path'] for m in merges]})")
+        return
+    comp_fields = [f["name"] for f in st["variants"][0]["fields"] if "Vec<" in f["ty"] and ("RustNode" in f["ty"] or "model::soap::" in f["ty"])]
+    b = F.lib.body(merges[0]["path"])
+    B = M.Body(b)
+    short = merges[0]["path"].rsplit("::", 1)[-1]
+    whole = ("Vec::<T, A>::extend", "iter::Extend::extend", "Vec::<T, A>::append", "Vec::<T, A>::extend_from_slice")
+    for fld in comp_fields:
+        ok = False
+        for bb, t in B.calls():
+            d = M.Body.callee_decl(t) or ""
+            if not d.endswith(whole) or len(t["args"]) < 2:
+                continue
+            dst = M.trace(B, t["args"][0], ())
+            src = M.trace(B, t["args"][1], M.IDENTITY_CALLS + ("IntoIterator::into_iter",))
+            if dst and all(o.kind == "arg" and o.local == 1 and o.fields() == [fld] for o in dst) and \
+                    src and all(o.kind == "arg" and o.local == 2 and o.fields() == [fld] for o in src):
+                ok = True
+        if ok:
+            ck.ok("R5", f"merge-keeps:{fld}", b["span"], f"{short}: every incoming `{fld}` entry is appended to the receiver's `{fld}`")
+        else:
+            ck.violation("R5", f"merge-keeps:{fld}", b["span"],
+                         f"{short} does not append the incoming document's `{fld}` as a whole (filtered, de-duplicated by a key, or not merged): "
+                         f"components declared in an imported schema can be dropped, e.g. a type whose local name also occurs in another namespace")
+    ck.floor("R5", "component collections of RustDocument", len(comp_fields), 5)
 
 
 # ---- R6 ---------------------------------------------------------------------------------------------
